@@ -46,12 +46,14 @@ def run_family(run, pid, cases, oracle, rule, what):
     if not ok:
         run.violation_unproved("harness-build", out)
         return run.finish(trusted=TRUSTED)
+    from checks import asmpool
+    cases = list(cases) + asmpool.pool(run, pid)
     dis = common.correspond(run, cases, IMPORTS, tag=pid.lower(), timeout=900)
-    run.corr["rule"] = rule
+    run.corr["rule"] = rule + "; plus the shared pool of the sibling assembler families (categories pool:*, model comparison and generic oracle only)"
     found = 0
     for c in cases:
         ans = c["impl"] or ""
-        problems = list(oracle(c, ans))
+        problems = list(oracle(c, ans)) if not c.get("pool") else []
         if ans.startswith("panic") or ans.startswith("crash") or ans == "":
             problems.append("assembler did not return a value: " + (ans[:200] or "no answer"))
         if "err:" in ans and " out=" in ans and not ans.endswith("out=-"):
